@@ -24,6 +24,7 @@ mod c16;
 mod c04;
 mod c04t;
 mod typed;
+mod c07;
 
 fn main() {
     let args: Vec<String> = std::env::args().collect();
@@ -64,6 +65,7 @@ fn main() {
         "C15" => c15::run(&mut sink, thorough, seed),
         "C16" => { c16::run(&mut sink, thorough, seed); typed::run_tt(&mut sink, thorough, seed); }
         "C04" => c04::run(&mut sink, thorough, seed),
+        "C07" => c07::run(&mut sink, thorough, seed),
         "replay" => { /* replay lines are `op args…` on stdin */
             let mut s = String::new();
             use std::io::Read;
@@ -102,6 +104,7 @@ fn replay(sink: &mut common::Sink, toks: &[&str]) {
         "c16" => c16::replay(sink, toks),
         "rtv" | "rtt" => c04::replay(sink, toks),
         "tt" | "tt3" | "pfxs" | "rfaults" => typed::replay(sink, toks),
+        "f64rt" | "f32rt" | "f64pr" | "f32pr" | "f32all" => c07::replay(sink, toks),
         _ => eprintln!("cannot replay op {}", toks[0]),
     }
 }
